@@ -1,3 +1,4 @@
+import NixModel.Bulk
 import NixModel.Observe
 import NixModel.Units
 import NixModel.Drive.Common
@@ -202,42 +203,6 @@ def xlinks (s : Store) (rel : String) (h : Handle) : Option (List String) := do
       let b (x : Bool) : String := if x then "1" else "0"
       ["|", toString i, id, fmtStr name, tok (get name), tok (get id), b (has name), b (has id)]
   pure (["ok", toString n, fmtList (linkedIds s c)] ++ rows.flatten)
-
-/-- the bulk setters of multi-valued links — `Tag / MultiTag::references(vector)`, `sources(vector)`, `Group::dataArrays / dataFrames /
-    tags / multiTags(vector)` — as the C++ composes them from the single-link entry points (after the fixes 45f7e5e, b20dbdf, 7b1994f):
-    the vector is looked at first (an uninitialised entity, an entity that is not in the block: refused, nothing has happened yet),
-    then every old link is removed, then the new ones are added in the order of the vector, an entity named twice once -/
-def setLinks (s : Store) (rel : String) (h : Handle) (targets : List (Option Handle)) : Res Unit :=
-  let cname := if rel == "ref" then "references" else if rel == "src" then "sources" else groupContainer (rel.drop 1).toString
-  let kind := (rel.drop 1).toString
-  -- first pass: the ids to link, or the first refusal
-  let pass1 : Except Err (List ObjId) := targets.foldl (fun acc t =>
-    match acc with
-    | .error e => .error e
-    | .ok l =>
-      match t with
-      | none => .error .uninitializedEntity
-      | some t =>
-        if rel == "ref" then
-          (if (blkFindKey s h.blk "A" (idOf s t.obj)).isNone then .error .stdRuntime else .ok (if l.any (fun o => idOf s o == idOf s t.obj) then l else l ++ [t.obj]))
-        else if rel == "src" then
-          -- a source that is not (a direct child) of the block is skipped without a word
-          (if (blkFindHandle s h.blk "O" t).isNone then .ok l else .ok (if l.any (fun o => idOf s o == idOf s t.obj) then l else l ++ [t.obj]))
-        else
-          (if (blkFind s h.blk kind (nameOf s t.obj) (idOf s t.obj)).isNone then .error .stdRuntime else .ok (if l.any (fun o => idOf s o == idOf s t.obj) then l else l ++ [t.obj]))) (.ok [])
-  match pass1 with
-  | .error e => (s, .error e)
-  | .ok objs =>
-    let s1 := match s.optGroup h.obj cname with
-      | some c => (s.linksOf c).foldl (fun s l => s.removeGroup c l.1) s
-      | none => s
-    objs.foldl (fun (r : Res Unit) o =>
-      match r with
-      | (s, .error e) => (s, .error e)
-      | (s, .ok ()) =>
-        if rel == "ref" then addReference s h.obj h.blk (idOf s o)
-        else if rel == "src" then addSource s h.obj h.blk (idOf s o)
-        else addMember s h.obj h.blk kind (nameOf s o) (idOf s o)) (s1, .ok ())
 
 /-- one op on the model: new state and the prediction -/
 def step (ms : MState) (op : String) (args impl : List String) : MState × Pred :=
